@@ -5,7 +5,7 @@ import ast
 from typing import List, Optional
 
 from ..collect import Path, callee_is, run_paths
-from ..common import construct, where
+from ..common import calls_in, construct, where
 from ..flow import NONE, Value, contains, show, subterms
 from ..loader import AnalysisError, ClassInfo, FuncInfo, Program, walk_shallow
 from ..report import Report
@@ -155,6 +155,49 @@ def run(p: Program, rep: Report, tier: str) -> None:
             else:
                 rep.violation("R14.1", construct(call, text="validator headers"), where(call), f"{side} {cname}.__call__ does not read both If-None-Match and If-Modified-Since")
 
+            # ... and hands them to file_response unmodified: every definition of the two variables passed as validators is either
+            # the header read itself or the initial default that precedes it; a later overwrite (e.g. blanking them for some
+            # configuration) means an unchanged file never revalidates
+            frc = [c for c in calls_in(call, deep=True) if isinstance(c.func, ast.Attribute) and c.func.attr == "file_response"]
+            for c in frc:
+                for pos, what in ((2, "If-None-Match"), (3, "If-Modified-Since")):
+                    if len(c.args) <= pos:
+                        rep.violation("R14.1", construct(call, text=f"file_response without the {what} value"), where(call, c), f"{side} {cname}: file_response is not given the {what} header value")
+                        continue
+                    a = c.args[pos]
+                    if not isinstance(a, ast.Name):
+                        hdr = _header_derived(a, call, side)
+                        if hdr:
+                            rep.ok("R14.1", f"{side} {cname}: {what} is read in the file_response call itself")
+                        else:
+                            rep.violation("R14.1", construct(call, text=f"{what} argument {ast.unparse(a)[:50]}"), where(call, c), f"{side} {cname}: the {what} value handed to file_response is not the request header")
+                        continue
+                    defs = []
+                    for n in ast.walk(call.node):
+                        if isinstance(n, ast.Assign):
+                            for t in n.targets:
+                                for x in ast.walk(t):
+                                    if isinstance(x, ast.Name) and x.id == a.id:
+                                        defs.append((n.lineno, n.value, n))
+                        elif isinstance(n, (ast.AnnAssign, ast.AugAssign)) and isinstance(n.target, ast.Name) and n.target.id == a.id and n.value is not None:
+                            defs.append((n.lineno, n.value, n))
+                        elif isinstance(n, ast.NamedExpr) and n.target.id == a.id:
+                            defs.append((n.lineno, n.value, n))
+                    defs.sort(key=lambda d: d[0])
+                    first_hdr = next((ln_ for ln_, v, n in defs if _header_derived(v, call, side)), None)
+                    bad = [(ln_, v, n) for ln_, v, n in defs if not _header_derived(v, call, side) and not (isinstance(v, ast.Constant) and v.value == "" and (first_hdr is None or ln_ < first_hdr))]
+                    if first_hdr is None:
+                        rep.violation("R14.1", construct(call, text=f"{what} never read"), where(call, c), f"{side} {cname}: the {what} value handed to file_response is never read from the request")
+                    elif bad:
+                        ln_, v, n = bad[0]
+                        rep.violation("R14.1", construct(call, text=f"{what} overwritten: {' '.join(ast.unparse(n).split())[:70]}"), where(call, n),
+                                      f"{side} {cname}: the {what} value read from the request is overwritten before it reaches file_response: a request carrying the validators of an unchanged file is "
+                                      "answered with a full 200 instead of 304")
+                    else:
+                        rep.ok("R14.1", f"{side} {cname}: the {what} value reaches file_response as read from the request ({len(defs)} definitions)")
+            if not frc:
+                rep.undecide("R14.1", f"{side} {cname}.__call__: no file_response(...) call")
+
     # ---------------------------------------------------------------- R14.2 inside if_modified_since
     ims = base.methods.get("if_modified_since")
     rep.analysed(ims.fq)
@@ -243,8 +286,25 @@ def run(p: Program, rep: Report, tier: str) -> None:
         rep.violation("R14.4", construct(inm, text="empty header"), where(inm), "an empty If-None-Match is not rejected up front")
     if not member:
         rep.undecide("R14.4", "no member comparison found in if_none_match")
-    rep.require_instances("R14.1", 8)
+    rep.require_instances("R14.1", 16)
     rep.require_instances("R14.2", 3)
     rep.require_instances("R14.3", 2)
     rep.require_instances("R14.4", 3)
     rep.require_instances("R14.5", 2)
+
+
+def _header_derived(v: ast.expr, call: FuncInfo, side: str) -> bool:
+    """Does the expression read the request: environ.get('HTTP_...')/environ[...] (WSGI) or a value of the scope['headers']
+    pairs, possibly decoded (ASGI)?"""
+    params = call.params[1:]
+    gate = params[0] if params else ("environ" if side == "wsgi" else "scope")
+    loopvars = set()
+    for n in ast.walk(call.node):
+        if isinstance(n, (ast.For, ast.AsyncFor)) and any(isinstance(x, ast.Name) and x.id == gate for x in ast.walk(n.iter)):
+            for x in ast.walk(n.target):
+                if isinstance(x, ast.Name):
+                    loopvars.add(x.id)
+    for x in ast.walk(v):
+        if isinstance(x, ast.Name) and (x.id == gate or x.id in loopvars):
+            return True
+    return False
